@@ -120,7 +120,7 @@ func main() {
 		meta := report.Meta{
 			Tier: *tier, Seed: seed, Level: p.Level, WallS: time.Since(start).Seconds(),
 			Cmd:        "./check.sh " + p.ID + " " + *tier,
-			Trusted:    p.Trusted,
+			Trusted:    trusted(p),
 			Configs:    labels,
 			Deps:       deps,
 			Selftest:   selftest,
@@ -322,4 +322,16 @@ func lastLine(s string) string {
 		return lines[len(lines)-1]
 	}
 	return ""
+}
+
+func trusted(p *rules.Property) []string {
+	if len(p.Trusted) > 0 {
+		return p.Trusted
+	}
+	return []string{
+		"Go type checker and go/packages loader (x/tools v0.29.0)",
+		"the checker's own statement-level CFG with split conditions (internal/flow), go/ssa and the VTA call graph where a rule uses them",
+		"the pinned dependency github.com/tdewolff/parse/v2 wherever a rule stops at its API",
+		"reference tables in checker/internal/ref transcribed from the standards",
+	}
 }
